@@ -300,7 +300,7 @@ def _np():
 CLASSES = ['cubic', 'hexagonal', 'tetragonal', 'orthorhombic', 'rhombohedral', 'monoclinic', 'triclinic']
 
 
-def gen_cij(rng, cls, aniso=1.0, scale=1.0):
+def gen_cij(rng, cls, aniso=1.0, scale=1.0, tiny=False):
     """6x6 stiffness of the given crystal class: isotropic base (lam, mu) plus class-shaped perturbations of relative
     size `aniso`; resampled until clearly positive-definite."""
     np = _np()
@@ -356,6 +356,18 @@ def gen_cij(rng, cls, aniso=1.0, scale=1.0):
                     sym(i, j, c[i, j] + d(0.2 if i != j else 0.35))
         else:
             raise ValueError(cls)
+        if tiny and cls in ('rhombohedral', 'monoclinic', 'triclinic', 'tetragonal'):
+            # symmetry-allowed coupling constants that are small but far above every round-off clean-up threshold
+            # (1e-8 of the largest constant): a medium of its own, not a rounding artefact
+            t = rng.choice([1e-4, 1e-6, 3e-7]) * rng.choice([1, -1]) * c.max()
+            if cls == 'rhombohedral':
+                sym(0, 3, t); sym(1, 3, -t); sym(4, 5, t)
+            elif cls == 'tetragonal':
+                sym(0, 5, t); sym(1, 5, -t)
+            elif cls == 'monoclinic':
+                sym(rng.choice([0, 1, 2]), 5, t)
+            else:
+                sym(rng.choice([0, 1, 2]), rng.choice([3, 4]), t)
         c = c * scale
         if np.linalg.eigvalsh(c).min() > 0.15 * mu * scale:
             return [[float(v) for v in row] for row in c]
@@ -444,7 +456,7 @@ def gen_spec(rng, cls=None, route=None, mn=None, aniso=1.0, near_identity=False,
     if four_index:
         route = 'miller'
     scale, ls = scales if scales is not None else gen_scales(rng)
-    spec = {'cls': cls, 'cij': gen_cij(rng, cls, aniso=aniso, scale=scale), 'route': route, 'tol': rng.choice(TOLS),
+    spec = {'cls': cls, 'cij': gen_cij(rng, cls, aniso=aniso, scale=scale, tiny=rng.random() < 0.35), 'route': route, 'tol': rng.choice(TOLS),
             'cart_axes': False, 'box': None, 'transform': None, 'xi_uvw': None, 'slip_hkl': None,
             'cscale': scale, 'lscale': 1.0}
     m, n = gen_mn(rng, mn)
@@ -583,7 +595,7 @@ def gen_aniso_dir(rng, cls):
     return [[float(v) for v in row] for row in d]
 
 
-def gen_sweep(rng, cls=None, bkind=None):
+def gen_sweep(rng, cls=None, bkind=None, tol=None):
     """one isotropic base medium, one anisotropy direction, one orientation and one Burgers vector given by its
     components along m, n, ξ (general: all three non-zero); the dispatcher is run at every eps of EPS_SWEEP."""
     np = _np()
@@ -594,6 +606,8 @@ def gen_sweep(rng, cls=None, bkind=None):
     sw['scale'] = sw['cscale'] = cs
     sw['dir'] = gen_aniso_dir(rng, sw['dcls'])
     sw['cij'] = None
+    if tol is not None:
+        sw['tol'] = tol
     bkind = bkind or rng.choice(SWEEP_BKINDS)
     sg = lambda: rng.choice([1.0, -1.0])         # noqa: E731
     be, bn_, bs = (sg() * rng.uniform(0.3, 1.5) for _ in range(3))
@@ -611,7 +625,7 @@ def gen_sweep(rng, cls=None, bkind=None):
         m, n = mn_vectors(sw)
         bmax = float(np.abs(be * m + bs * np.cross(m, n)).max())
         t = sw['tol']
-        f = rng.choice([0.25 * t, 0.5 * t, 1e-4 * t]) if bkind == 'tiny-n' else rng.choice([2 * t, 100 * t, 1e-3, 4 * t])
+        f = rng.choice([0.25 * t, 0.5 * t, 0.05 * t]) if bkind == 'tiny-n' else rng.choice([2 * t, 100 * t, 1e-3, 4 * t])
         bn_ = sg() * f * bmax
     sw['bkind'] = 'frame:' + bkind
     sw['burgers'] = 'frame'
@@ -978,6 +992,7 @@ def _field_case(ctx, spec, s, pts):
         ctx.disagree('field:shape', f'field arrays have shapes {U.shape}, {E.shape}, {S.shape} for {len(P)} points', rep)
         return
     U, E, S = (np.asarray(a).reshape((len(P),) + a.shape[(0 if single else 1):]) for a in (U, E, S))
+    _real_if_close_case(ctx, rep, spec, vals, U, E, S, su, se, ss)
     for i in range(len(P)):
         row = vals[27 * i:27 * i + 27]
         m_eta, m_u = np.array(row[:6]), np.array(row[6:9])
@@ -995,15 +1010,29 @@ def _field_case(ctx, spec, s, pts):
             if np.iscomplexobj(impl):
                 d = float(np.abs(impl - model).max())
             else:
-                # real_if_close dropped imaginary parts below tol: the model's must be that small
                 d = max(float(np.abs(impl - model.real).max()), 0.0)
-                if float(np.abs(model.imag).max()) > spec['tol'] + bound:
-                    ctx.disagree(name + ':imag', f'{name} returned real but the model value has imaginary part '
-                                 f'{float(np.abs(model.imag).max()):.3e}', r1)
             _track(ctx, name, d / bound)
             if d > bound:
                 ctx.disagree(name, f'{name} at {P[i].tolist()} differs from the model by {d:.3e} '
                              f'({d / bound:.2e} x the round-off bound): {np.asarray(impl).tolist()} vs {model.tolist()}', r1)
+
+
+def _real_if_close_case(ctx, rep, spec, vals, U, E, S, su, se, ss):
+    """the coded `real_if_close` (repo fix fc87dd0): the whole result is returned real iff every |Im| <= tol x max|result|;
+    decided here on the model's exact values, with the round-off bound of the sums as the undecided band."""
+    np = _np()
+    npts = len(su)
+    for name, impl, sl, shape, scale in (('displacement', U, slice(6, 9), (3,), su), ('strain', E, slice(9, 18), (3, 3), se),
+                                         ('stress', S, slice(18, 27), (3, 3), ss)):
+        M = np.array([vals[27 * i:27 * i + 27][sl] for i in range(npts)])
+        big, im = float(np.abs(M).max()), float(np.abs(M.imag).max())
+        band = 1e-11 * float(np.max(scale)) + 1e-300
+        if im <= spec['tol'] * big - band and np.iscomplexobj(impl):
+            ctx.disagree(name + ':complex', f'{name} is returned complex although the imaginary part of the model value ({im:.3e}) is below '
+                         f'tol x max|{name}| = {spec["tol"] * big:.3e}', rep)
+        elif im > spec['tol'] * big + band and not np.iscomplexobj(impl):
+            ctx.disagree(name + ':imag', f'{name} is returned real although the model value has an imaginary part {im:.3e} above '
+                         f'tol x max|{name}| = {spec["tol"] * big:.3e}', rep)
 
 
 def _iso_case(ctx, spec, s, pts):
@@ -1211,6 +1240,147 @@ def _dispatch_case(ctx, sw, eps):
                      f'(anisotropy {eps}, is_normal(isotropic): {iso_n}, b = {base.burgers.tolist()}, n = {base.n.tolist()})', rep)
 
 
+def _seq_case(ctx, spec, rng):
+    """object-level correspondence: ONE Stroh object and ONE coordinate array live through a history of in-place edits
+    (of the array, and of the argument objects the caller kept) and reads; the model's `World` (Atomman.C12: the solved
+    object holds copies, a read is a function of the object and of the array's current contents) runs the same history;
+    every read is compared."""
+    import atomman as am
+    np = _np()
+    C, b, kw = _mutable_args(spec)
+    st, s = _call(am.defect.Stroh, C, b, **kw)
+    if st != 'ok':
+        return
+    ls = spec.get('lscale', 1.0)
+    wire = problem_wire(s)                  # the problem as solved: from here on only the model remembers it
+    p0, A0, L0, k0, b0, m0, n0 = s.p, s.A, s.L, s.k, s.burgers.copy(), s.m.copy(), s.n.copy()
+    cmax = float(np.abs(s.C.Cijkl).max())
+    updn = np.array([1, -1, 1, -1, 1, -1])
+    kLb = np.abs(k0 * updn * L0.dot(b0))
+    aA = np.abs(A0).max(axis=1)
+    mpn = np.abs(m0 + np.outer(p0, n0)).max(axis=1)
+    npts = rng.choice([1, 2, 3])
+    P = np.array(gen_points(rng, s, npts, special=False, ls=ls))
+    steps, reads = [], []
+    hist = []
+    R2 = _rot_float(quat_rot(rng.choice(QUATS[1:8])))
+    rep = {'op': 'seq', 'spec': spec}
+
+    def read():
+        cur = P.copy()
+        eta = cur.dot(m0)[:, None] + cur.dot(n0)[:, None] * p0[None, :]      # independent of the object under test
+        ln = np.log(eta)
+        steps.append('0 ' + ' '.join(cfrs(ln[i]) for i in range(npts)))
+        order = ['eta', 'displacement', 'strain', 'stress']
+        rng.shuffle(order)
+        got = {}
+        for f in order:
+            stf, v = _call(getattr(s, f), P)
+            got[f] = (stf, None if v is None else np.array(v, copy=True))
+        reads.append((cur, eta, ln, got, list(hist)))
+    read()
+    for _ in range(rng.choice([4, 6, 8])):
+        kind = rng.choice(['set', 'scale', 'scale', 'shift', 'col', 'all', 'argB', 'argM', 'argN', 'argC', 'argT', 'read'])
+        if kind == 'set':
+            i = rng.randrange(npts)
+            x = np.array(gen_points(rng, s, 1, special=False, ls=ls)[0])
+            P[i] = x
+            steps.append(f'1 {i} {cm.frs(x)}')
+        elif kind == 'scale':
+            t = rng.choice([2.0, 0.5, 4.0, -1.0, 0.25])
+            P *= t
+            steps.append(f'2 {cm.fr(t)}')
+        elif kind == 'shift':
+            d = np.array([cm.dyadic(rng, -1, 1, 4) * ls for _ in range(3)])
+            P += d
+            steps.append(f'3 {cm.frs(d)}')
+        elif kind == 'col':
+            j, h = rng.randrange(3), cm.dyadic(rng, -1, 1, 6) * ls
+            P[:, j] += h
+            steps.append(f'4 {j} {cm.fr(h)}')
+        elif kind == 'all':
+            Q = np.array(gen_points(rng, s, npts, special=False, ls=ls))
+            np.copyto(P, Q)
+            steps.append(f'5 {cm.frs(Q)}')
+        elif kind == 'argB':
+            v = np.array([rng.uniform(-2, 2) * ls for _ in range(len(b))])
+            b[:] = v
+            steps.append(f'6 {cm.frs(v[:3])}')
+        elif kind in ('argM', 'argN'):
+            key = 'm' if kind == 'argM' else 'n'
+            if not isinstance(kw[key], np.ndarray):
+                continue
+            v = R2[0] if key == 'm' else R2[1]
+            kw[key][:] = v
+            steps.append(f'{7 if key == "m" else 8} {cm.frs(v)}')
+        elif kind == 'argC':
+            f = rng.choice([2.0, 0.5, 3.0])
+            C.Cij = C.Cij * f
+            steps.append(f'9 {cm.fr(f)}')
+        elif kind == 'argT':
+            key = 'transform' if 'transform' in kw else ('axes' if 'axes' in kw else None)
+            if key is None:
+                continue
+            kw[key][:] = R2
+            steps.append(f'10 {cm.frs(R2)}')
+        hist.append(kind)
+        if kind != 'read' and rng.random() < 0.3:
+            continue
+        read()
+    if hist and hist[-1] != 'read':
+        read()
+    line = f'seq {cm.fr(np.pi)} {wire} {npts} {cm.frs(reads[0][0])} {len(steps)} ' + ' '.join(steps)
+    out = ctx.driver.ask(line)
+    ctx.stats.case('seq', line[:3000], sample={'op': 'history on one object and one array', 'history': hist, **_spec_sample(spec)})
+    if out.startswith('err:'):
+        ctx.disagree('seq:driver-error', f'model refused: {out}', rep)
+        return
+    vals = cplx(cm.unfrs(out))
+    if len(vals) != 27 * npts * len(reads):
+        ctx.disagree('seq:driver-error', f'model returned {len(vals)} numbers for {len(reads)} reads of {npts} points', rep)
+        return
+    for q, (cur, eta, ln, got, h) in enumerate(reads):
+        r1 = dict(rep, history=h, points=cur.tolist())
+        bad = [f'{f}: {stf}' for f, (stf, v) in got.items() if stf != 'ok']
+        if bad:
+            ctx.disagree('seq:raises', f'after the history {h} the implementation {bad}', r1)
+            return
+        su = (kLb * aA * np.abs(ln)).sum(axis=1) / (2 * np.pi)
+        se = (kLb * aA * mpn / np.abs(eta)).sum(axis=1) / (2 * np.pi)
+        ss = se * 9 * cmax
+        for i in range(npts):
+            row = vals[27 * (q * npts + i):27 * (q * npts + i) + 27]
+            m_eta, m_u = np.array(row[:6]), np.array(row[6:9])
+            m_e, m_s = np.array(row[9:18]).reshape(3, 3), np.array(row[18:27]).reshape(3, 3)
+            if not np.allclose(eta[i], m_eta, rtol=1e-12, atol=1e-12 * float(np.abs(cur[i]).max()) * (1 + float(np.abs(p0).max()))):
+                ctx.disagree('seq:positions', f'harness and model disagree on the array contents after {h} (harness bug)', r1)
+                return
+            for name, impl, model, scale in (('eta', got['eta'][1].reshape(npts, 6)[i], m_eta, float(np.abs(eta[i]).max()) * 1e-2),
+                                             ('displacement', got['displacement'][1].reshape(npts, 3)[i], m_u, su[i]),
+                                             ('strain', got['strain'][1].reshape(npts, 3, 3)[i], m_e, se[i]),
+                                             ('stress', got['stress'][1].reshape(npts, 3, 3)[i], m_s, ss[i])):
+                bound = 1e-11 * scale + 1e-300
+                d = float(np.abs(impl - (model if np.iscomplexobj(impl) else model.real)).max())
+                _track(ctx, 'seq ' + name, d / bound)
+                if d > bound:
+                    ctx.disagree('seq:' + name, f'{name} read after the history {h} at {cur[i].tolist()} differs from the model (the solved '
+                                 f'object and the CURRENT contents of the array) by {d:.3e} ({d / bound:.2e} x the round-off bound): '
+                                 f'{np.asarray(impl).tolist()} vs {model.tolist()}', r1)
+                    return
+
+
+def _cguard(ctx, name, spec, fn):
+    """an exception inside one correspondence case (a zero Burgers vector, nan, a shape the implementation suddenly returns)
+    is a disagreement to report with the case, never a crash of the harness."""
+    try:
+        fn()
+    except Exception as e:  # noqa
+        import traceback
+        tb = traceback.extract_tb(e.__traceback__)[-1]
+        ctx.disagree(f'{name}:raises', f'{name}: {type(e).__name__}: {e} ({tb.filename.rsplit("/", 1)[-1]}:{tb.lineno} {tb.name})',
+                     {'op': name, 'spec': spec})
+
+
 def correspond(ctx):
     np = _np()
     rng = ctx.rng
@@ -1227,10 +1397,12 @@ def correspond(ctx):
                 ctx.disagree('stroh:raises', f'Stroh refused a generic {spec["cls"]} problem: {out}', {'op': 'stroh', 'spec': spec})
             continue
         s = build(spec)
-        _orientation_case(ctx, spec, s)
-        _stroh_case(ctx, spec, s)
+        _cguard(ctx, 'orient', spec, lambda: _orientation_case(ctx, spec, s))
+        _cguard(ctx, 'stroh', spec, lambda: _stroh_case(ctx, spec, s))
         npts = rng.choice([1, 1, 3, 6, 9])
-        _field_case(ctx, spec, s, gen_points(rng, s, npts, ls=spec['lscale']))
+        _cguard(ctx, 'field', spec, lambda: _field_case(ctx, spec, s, gen_points(rng, s, npts, ls=spec['lscale'])))
+        if it % 2 == 0:
+            _cguard(ctx, 'seq', spec, lambda: _seq_case(ctx, spec, rng))
     ctx.extra['degenerate_refused'] = n_deg
     ctx.extra['t_stroh_s'] = round(time.time() - t0, 2)
     t1 = time.time()
@@ -1242,17 +1414,18 @@ def correspond(ctx):
             ctx.disagree('iso:raises', f'IsotropicVolterraDislocation refused an isotropic problem: {type(e).__name__}: {e}',
                          {'op': 'iso', 'spec': spec})
             continue
-        _orientation_case(ctx, spec, s)
-        _isok_case(ctx, spec, s)
-        _iso_case(ctx, spec, s, gen_points(rng, s, rng.choice([1, 4, 8, 12]), ls=spec['lscale']))
+        _cguard(ctx, 'orient', spec, lambda: _orientation_case(ctx, spec, s))
+        _cguard(ctx, 'isok', spec, lambda: _isok_case(ctx, spec, s))
+        _cguard(ctx, 'iso', spec, lambda: _iso_case(ctx, spec, s, gen_points(rng, s, rng.choice([1, 4, 8, 12]), ls=spec['lscale'])))
     for spec in gen_refusals(rng, ctx.n(54, 270)):
-        _refusal_case(ctx, spec)
+        _cguard(ctx, 'refusal', spec, lambda: _refusal_case(ctx, spec))
     ctx.extra['t_iso_refusals_s'] = round(time.time() - t1, 2)
     t2 = time.time()
     for it in range(ctx.n(14, 84)):
-        sw = gen_sweep(rng, cls=CLASSES[it % len(CLASSES)], bkind=SWEEP_BKINDS[(it + it // 7) % len(SWEEP_BKINDS)])
+        bk = SWEEP_BKINDS[(it + it // 7) % len(SWEEP_BKINDS)]
+        sw = gen_sweep(rng, cls=CLASSES[it % len(CLASSES)], bkind=bk, tol=[1e-6, 1e-5, 1e-8][it % 3] if bk.endswith('-n') else None)
         for eps in EPS_SWEEP:
-            _dispatch_case(ctx, sw, eps)
+            _cguard(ctx, 'dispatch', sw, lambda: _dispatch_case(ctx, sw, eps))
     ctx.extra['t_dispatch_s'] = round(time.time() - t2, 2)
 
 
@@ -1346,7 +1519,13 @@ def _clauses(ctx, spec, s, rng, kind):
         z = rng.choice([0.0, 1.5, -20.0]) * ls
         X = _frame_point(s, r, th, z)
         rep = dict(rep0, point=X.tolist(), r=r, theta=th)
+        X0 = X.copy()
         u, e, sg = s.displacement(X), s.strain(X), s.stress(X)
+        if X.shape != (3,) or not np.array_equal(X.reshape(-1)[:3], X0):
+            ctx.violate(f'{kind}:input-modified', f'{kind}: evaluating the fields at the single point {X0.tolist()} (a (3,) array) changed the '
+                        f'caller\'s array: shape {X.shape}, contents {X.tolist()}', rep)
+            X = X0.copy()
+            return
         ctx.stats.case('oracle:point', (kind, tuple(X), tuple(b), str(spec['cij'])),
                        sample={'op': 'field clauses', 'solver': kind, 'pos': X.tolist(), 'r': r, 'theta': th})
         if np.iscomplexobj(u) or np.iscomplexobj(e) or np.iscomplexobj(sg) or u.shape != (3,) or e.shape != (3, 3):
@@ -1434,6 +1613,16 @@ def _clauses(ctx, spec, s, rng, kind):
         if inc > 2.0 * bn * (2 * math.pi / nseg) * 10:
             ctx.violate(f'{kind}:continuity', f'{kind}: displacement increment {inc:.3e} between neighbouring points of a circuit '
                         f'of radius {r} that does not cross the cut', rep)
+
+
+def _near_degenerate(s):
+    """nearly defective sextic eigenproblem (e.g. a hexagonal medium with the line a few mrad off the six-fold axis): the
+    eigenvector matrix is ill-conditioned, whether the eigen-solver's output passes the solver's self-checks is luck and
+    round-off is amplified by the condition number — outside the property ("away from exact eigenvalue degeneracy")."""
+    np = _np()
+    if not hasattr(s, 'A'):
+        return False
+    return float(np.linalg.cond(np.hstack([s.A, s.L / float(np.abs(s.C.Cijkl).max())]).T)) > 1e4
 
 
 def _rot_float(R):
@@ -1739,7 +1928,7 @@ def _observables(s, P):
     out = {'burgers': s.burgers, 'transform': s.transform, 'm': s.m, 'n': s.n, 'xi': s.ξ, 'Cij': s.C.Cij, 'K_tensor': s.K_tensor,
            'K_coeff': np.array(s.K_coeff), 'preln': np.array(s.preln), 'characterangle': np.array(s.characterangle()),
            'displacement': s.displacement(P), 'strain': s.strain(P), 'stress': s.stress(P)}
-    for nm in ('p', 'A', 'L', 'k', 'mu', 'nu'):
+    for nm in ('p', 'A', 'L', 'k', 'mu', 'nu', 'tol'):
         if hasattr(s, nm):
             out[nm] = np.asarray(getattr(s, nm))
     return out
@@ -1841,6 +2030,9 @@ def _input_forms(ctx, spec, s, rng, kind):
     # round-off of a sum depends on how many points are evaluated together: relative to the magnitudes that are summed
     floor = {'displacement': float(np.linalg.norm(s.burgers)), 'strain': 0.0, 'eta': 0.0, 'theta': 1.0,
              'stress': float(np.abs(C4).max()) * float(np.abs(ref['strain']).max())}
+    if hasattr(s, 'A'):
+        _eta, su, se, ss = _field_scales(s, P.copy())       # sums of the |terms| the anisotropic formulas add up
+        floor.update(displacement=max(floor['displacement'], float(su.max())), strain=float(se.max()), stress=float(ss.max()))
     for name, val, order in _point_forms(P):
         snap = np.array(val, dtype=float).tobytes() if not isinstance(val, (list, tuple)) else repr(val)
         got = {}
@@ -1886,7 +2078,12 @@ def _input_forms(ctx, spec, s, rng, kind):
         rep = dict(rep0, form=name, single=True)
         for f in FIELDS:
             ctx.stats.case('oracle:point-form', (kind, name, f, P[0].tobytes(), str(spec['cij']), str(spec['m']), str(spec['n'])))
+            snap = (val.shape, val.dtype, val.tobytes()) if isinstance(val, np.ndarray) else repr(val)
             st, v = _call(getattr(s, f), val)
+            if snap != ((val.shape, val.dtype, val.tobytes()) if isinstance(val, np.ndarray) else repr(val)):
+                ctx.violate(f'{kind}:input-modified', f'{kind}.{f} changed the single point handed over as {name} (shape / contents: '
+                            f'{snap[0] if isinstance(snap, tuple) else snap} -> {val.shape if isinstance(val, np.ndarray) else val})', rep)
+                break
             if st != 'ok':
                 ctx.violate(f'{kind}:forms-raises', f'{kind}.{f}(single point as {name}) {st}; point {P[0].tolist()}', rep)
                 continue
@@ -1917,8 +2114,8 @@ def _scale_sweep(ctx, spec0, rng, kind):
     st0, base = _outcome_obj(spec0, kind)
     if st0 != 'ok':
         return
-    if hasattr(base, 'A') and float(np.linalg.cond(np.hstack([base.A, base.L / float(np.abs(base.C.Cijkl).max())]).T)) > 1e5:
-        return        # nearly defective eigenproblem: whether the eigen-solver's output passes the self-checks is luck
+    if _near_degenerate(base):
+        return
     ls0 = spec0.get('lscale', 1.0)
     m, n, xi = base.m, base.n, base.ξ
     b0 = base.burgers
@@ -1947,7 +2144,8 @@ def _scale_sweep(ctx, spec0, rng, kind):
             ctx.violate(f'{kind}:scale-class', f'solve_volterra_dislocation returns {type(s).__name__} instead of {type(base).__name__} '
                         f'when lengths are multiplied by {ls!r} and the stiffness by {cs!r}', rep)
             continue
-        rt = 1e-11 if pow2 else 1e-9
+        # (a factor that is not a power of two moves components sitting at the round-off clean-up threshold tol across it)
+        rt = 1e-11 if pow2 else max(1e-9, 3 * spec0['tol'])
         P = P0 * ls
         U, E, S, K = s.displacement(P), s.strain(P), s.stress(P), s.K_tensor
         if any(np.iscomplexobj(a) for a in (U, E, S, K)):
@@ -1957,7 +2155,7 @@ def _scale_sweep(ctx, spec0, rng, kind):
         bad = []
         if _rel(s.transform, base.transform, 1.0) > 1e-14:
             bad.append('transform')
-        if _rel(s.burgers / ls, b0) > max(rt, 3 * spec0['tol'] if not pow2 else rt):
+        if _rel(s.burgers / ls, b0) > rt:
             bad.append(f'burgers {s.burgers.tolist()} is not {ls!r} x {b0.tolist()}')
         # the property's clause: jump across the cut = Burgers vector
         jmp = U[4] - U[5]
@@ -1970,10 +2168,10 @@ def _scale_sweep(ctx, spec0, rng, kind):
             bad.append(f'strain changed: {E.tolist()} vs {E0.tolist()}')
         if _rel(S / cs, S0) > rt * 100:
             bad.append(f'stress / {cs!r}: {(S / cs).tolist()} vs {S0.tolist()}')
-        if _rel(K / cs, K0) > max(rt * 100, 0 if pow2 else 3 * spec0['tol']):
+        if _rel(K / cs, K0) > rt * 100:
             bad.append(f'K_tensor / {cs!r}: {(K / cs).tolist()} vs {K0.tolist()}')
-        if abs(s.K_coeff / cs - base.K_coeff) > max(rt * 100, 0 if pow2 else 3 * spec0['tol']) * abs(base.K_coeff) \
-                or abs(s.preln / (cs * ls * ls) - base.preln) > max(rt * 100, 0 if pow2 else 3 * spec0['tol']) * abs(base.preln):
+        if abs(s.K_coeff / cs - base.K_coeff) > rt * 100 * abs(base.K_coeff) \
+                or abs(s.preln / (cs * ls * ls) - base.preln) > rt * 100 * abs(base.preln):
             bad.append(f'K_coeff {s.K_coeff!r}, preln {s.preln!r} vs {base.K_coeff!r}, {base.preln!r}')
         if bad:
             ctx.violate(f'{kind}:scale', f'{kind}: the same problem with lengths x {ls!r} and stiffness x {cs!r} is not the scaled '
@@ -1998,7 +2196,8 @@ def _inplace_sequence(ctx, spec, rng, kind):
     hist = []
     prev = None
     edits = ['none', 'shift', 'column', 'double', 'halve', 'row', 'overwrite', 'temp', 'negate', 'double']
-    for step in range(rng.choice([5, 7, 9])):
+    nsteps = rng.choice([5, 7, 9])
+    for step in range(nsteps):
         ed = 'none' if step == 0 else rng.choice(edits)
         arg = P
         if ed == 'shift':
@@ -2023,6 +2222,10 @@ def _inplace_sequence(ctx, spec, rng, kind):
         order = list(FIELDS) + extra
         rng.shuffle(order)
         vals = {}
+        # the reference is a solver nobody has read from yet (every other step), read once per field: a getter that writes
+        # (memo, in-place normalisation) makes the history of reads matter on the object under test only
+        if step % 2 == 1:
+            fresh = build(spec, kind)
         for f in order:
             ctx.stats.case('oracle:inplace', (kind, f, cur.tobytes(), str(spec['cij']), str(spec['m']), str(spec['n']), tuple(hist)),
                            sample={'op': 'one position array edited in place', 'solver': kind, 'edit': ed, 'field': f})
@@ -2044,7 +2247,10 @@ def _inplace_sequence(ctx, spec, rng, kind):
                 if np.shares_memory(v, arg):
                     ctx.violate(f'{kind}:aliased-output', f'{kind}.{f} returns an array that shares memory with the points', r1)
                     return
-                v[...] = -12345.0                                  # scribble over the result: the next call must not see it
+                if step < nsteps - 1:
+                    continue
+                # last step: scribble over the result: the next call must not see it
+                v[...] = -12345.0
                 st3, v3 = _call(getattr(s, f), arg)
                 if st3 != 'ok' or not np.array_equal(np.asarray(v3), vals[f], equal_nan=True) or (isinstance(v3, np.ndarray) and np.shares_memory(v3, v)):
                     ctx.violate(f'{kind}:aliased-output', f'{kind}.{f}: writing into a returned array changes what the next call returns '
@@ -2058,6 +2264,17 @@ def _inplace_sequence(ctx, spec, rng, kind):
                             f'{1 / t} x the previous values: strain {vals["strain"].tolist()}, before {prev["strain"].tolist()}', r1)
                 return
         prev = vals if ed != 'temp' else None
+        if ed == 'temp':
+            # two unnamed temporaries in a row (the second is likely to live at the address of the first)
+            for f in order:
+                for c in (rng.choice([2.0, 0.5]), rng.choice([3.0, -1.0])):
+                    stf, v = _call(getattr(s, f), P * c + 0.0)
+                    stw, w = _call(getattr(fresh, f), P * c + 0.0)
+                    if stf != 'ok' or stw != 'ok' or not np.array_equal(np.asarray(v), np.asarray(w), equal_nan=True):
+                        ctx.violate(f'{kind}:stale-positions', f'{kind}.{f}(pos * {c} + 0.0) — a temporary array — is not the field at '
+                                    f'{(P * c).tolist()}: {stf} {None if v is None else np.asarray(v).tolist()}, a fresh solver gives '
+                                    f'{None if w is None else np.asarray(w).tolist()}', dict(r1, factor=c))
+                        return
     # finite-difference loop that nudges ONE array in place: symmetric gradient of the displacement vs strain
     Q = np.array(gen_points(rng, s, 2, special=False, ls=ls))
     rr = np.hypot(Q.dot(s.m), Q.dot(s.n))
@@ -2187,10 +2404,11 @@ def _arg_aliasing(ctx, spec, rng, kind):
         if diff:
             # the property's clause on what is returned now: stress = C : strain for the medium that was solved
             sig, mag = _exact_C_strain(C4, obs['strain'][0])
-            hooke = max(abs(float(obs['stress'][0][i][j]) - float(sig[i][j])) for i in range(3) for j in range(3))
+            hooke = max(abs(float(obs['stress'][0][i][j]) - float(sig[i][j])) for i in range(3) for j in range(3)) \
+                / max(float(np.abs(obs0['stress'][0]).max()), 1e-300)
             ctx.violate(f'{kind}:aliased-argument', f'{kind}: the solution shares state with its arguments: after the caller\'s `{name}` '
                         f'(all edits so far: {done}) {diff} of the solved dislocation changed; stress - C:strain (medium that was '
-                        f'solved) is now {hooke:.3e} at {P[0].tolist()} ({spec["cls"]}, route {spec["route"]}, m={spec["m"]}, n={spec["n"]})', r1)
+                        f'solved) is now {hooke:.3e} of the stress at {P[0].tolist()} ({spec["cls"]}, route {spec["route"]}, m={spec["m"]}, n={spec["n"]})', r1)
             return
     # a second solution from the recycled objects = the solution of the new problem from fresh objects
     C2, b2, kw2 = _mutable_args(other)
@@ -2425,7 +2643,8 @@ def _orientation_oracle(ctx, spec, s):
     C0 = np.array(spec['cij'], dtype=float)
     C4 = am.ElasticConstants(Cij=C0).Cijkl
     want = np.einsum('ig,jh,km,ln,ghmn->ijkl', T, T, T, T, C4)
-    if float(np.abs(s.C.Cijkl - want).max()) > 3 * spec['tol'] * float(np.abs(want).max()):
+    # (ElasticConstants.transform is called without tol: its own default 1e-8 is the clean-up threshold of the stiffness)
+    if float(np.abs(s.C.Cijkl - want).max()) > 3 * TOL_C * float(np.abs(want).max()):
         ctx.violate('orientation:C', f'stiffness in the solver frame is not the rotated crystal stiffness ({spec["cls"]}, route {spec["route"]})', rep)
     b0 = np.array(v3(resolve_burgers(spec)), dtype=float)
     if spec['box'] is not None:
@@ -2468,12 +2687,21 @@ def search(ctx, broken):
         except Exception as e:  # noqa
             ctx.violate(f'{kind}:raises', f'{kind} solver raised {type(e).__name__}: {e}', {'op': 'clauses', 'solver': kind, 'spec': spec})
             continue
-        _orientation_oracle(ctx, spec, s)
-        _clauses(ctx, spec, s, rng, kind)
+        _guarded(ctx, 'orientation', kind, spec, lambda: _orientation_oracle(ctx, spec, s))
+        if _near_degenerate(s):
+            ctx.stats.case('near-degenerate', str(spec), nontrivial=False)
+            continue
+        _guarded(ctx, 'clauses', kind, spec, lambda: _clauses(ctx, spec, s, rng, kind))
         if it % 2 == 0:
-            _covariance(ctx, spec, rng, kind)
+            _guarded(ctx, 'covariance', kind, spec, lambda: _covariance(ctx, spec, rng, kind))
         # cross-cutting classes, each on every third problem (and through the entry point on some)
         k2 = 'auto' if it % 7 == 5 else kind
+        if k2 == 'auto':
+            stA, sA = _outcome_obj(spec, 'auto')
+            if stA != 'ok':
+                ctx.violate('dispatch:refused-solvable', f'solve_volterra_dislocation refuses a problem that {kind} solves: {stA}: {sA} '
+                            f'({spec["cls"]}, route {spec["route"]}, m={spec["m"]}, n={spec["n"]})', {'op': 'clauses', 'solver': kind, 'spec': spec})
+                continue
         for j, (name, op) in enumerate((('forms', lambda: _input_forms(ctx, spec, build(spec, k2), rng, k2)),
                                         ('inplace', lambda: _inplace_sequence(ctx, spec, rng, k2)),
                                         ('aliasing', lambda: _arg_aliasing(ctx, spec, rng, k2)),
@@ -2485,11 +2713,18 @@ def search(ctx, broken):
     t1 = time.time()
     nsw = ctx.n(21, 140) * mult
     for it in range(nsw):
-        sw = gen_sweep(rng, cls=CLASSES[it % len(CLASSES)], bkind=SWEEP_BKINDS[it % len(SWEEP_BKINDS)])
-        _dispatch_sweep(ctx, sw, rng, clauses=it < ctx.n(7, 42) * mult)
+        bk = SWEEP_BKINDS[it % len(SWEEP_BKINDS)]
+        sw = gen_sweep(rng, cls=CLASSES[it % len(CLASSES)], bkind=bk, tol=[1e-5, 1e-6, 1e-8][(it // 8) % 3] if bk.endswith('-n') else None)
+        try:
+            _dispatch_sweep(ctx, sw, rng, clauses=it < ctx.n(7, 42) * mult)
+        except Exception as e:  # noqa
+            ctx.violate('dispatch:sweep-raises', f'dispatcher sweep: {type(e).__name__}: {e}', {'op': 'dispatch', 'sweep': sw, 'eps': 0.0})
     ctx.extra['t_dispatch_sweep_s'] = round(time.time() - t1, 2)
     for it in range(ctx.n(4, 40) * mult):
-        _resolve_sequence(ctx, rng)
+        try:
+            _resolve_sequence(ctx, rng)
+        except Exception as e:  # noqa
+            ctx.violate('state:raises', f're-solve sequence: {type(e).__name__}: {e}', {'op': 'resolve'})
     ctx.extra['t_search_s'] = round(time.time() - t0, 2)
 
 
@@ -2521,6 +2756,11 @@ def replay(ctx, payload):
                 fn = {'inplace': _inplace_sequence, 'aliasing': _arg_aliasing, 'argforms': _arg_forms, 'scale': _scale_sweep}[op]
                 _guarded(ctx, op, kind, spec, lambda: fn(ctx, spec, rr, kind))
         print('replay', op, kind, 'violations now:', len(ctx.violations))
+    elif op == 'seq' and 'spec' in r and ctx.driver is not None:
+        for i in range(20):
+            ctx.rng = random.Random(i)
+            _cguard(ctx, 'seq', r['spec'], lambda: _seq_case(ctx, r['spec'], ctx.rng))
+        print('replay object-level histories: disagreements now:', len(getattr(ctx, 'disagreements', [])))
     elif op == 'dispatch' and 'sweep' in r:
         _dispatch_sweep(ctx, r['sweep'], rng)
         if ctx.driver is not None:
@@ -2568,6 +2808,11 @@ THEOREMS = [
     'C12.iso_stress_is_hooke', 'C12.iso_symmetric', 'C12.iso_falls_as_inv_r', 'C12.iso_burgers_jump',
     'C12.iso_jump_general', 'C12.iso_K_symm', 'C12.iso_K_posdef',
     'C12.thetaOf_halfplanes', 'C12.iso_strain_is_symgrad_deriv', 'C12.iso_stress_div_free_deriv',
+    # units: the same problem in another length / stiffness unit (repo fixes 540bb56, fc87dd0)
+    'C12.length_unit_covariant', 'C12.length_unit_displacement', 'C12.stiffness_unit_eigen', 'C12.stiffness_unit_covariant',
+    'C12.stroh_checks_unit_invariant',
+    # object level: no hidden state, no aliasing (repo fixes 0c58045, 14f01a1)
+    'C12.history_read', 'C12.arg_edits_invisible', 'C12.scale_edit_read',
     # entry point solve_volterra_dislocation; what the isotropic solver accepts (repo fix 9765d33)
     'C12.isoInPlaneOk_bound', 'C12.iso_accept_jump', 'C12.dispatch_iso_jump', 'C12.dispatch_stroh_first',
     'C12.dispatch_iso_iff', 'C12.dispatch_none_iff',
